@@ -42,7 +42,7 @@ def run(ctx):
         n = v.shape[-1]
         return v[..., n // 4: 3 * n // 4]
 
-    for it in range(90 if T else 36):
+    for it in range(400 if T else 36):
         fs = setgv(it)
         n = rnd.choice([64, 257, 1024, 4096])
         order = 1 + it % 8
@@ -84,7 +84,7 @@ def run(ctx):
             meta.append(("shape", "BPF"))
         ctx.case(("laws", order, n, npol, it % 3, BW / fs > 0.2), {"LPF/BPF laws": {"n": order, "BW/fs": BW / fs, "len": n, "npol": npol}})
     # ------------------------------------------------------------------ tone contract
-    for it in range(48 if T else 16):
+    for it in range(160 if T else 16):
         fs = setgv(it)
         n = 4096 if it % 2 == 0 else 4095                       # even and odd record lengths (fftshift and ifftshift differ on odd ones)
         order = 1 + it % 8
